@@ -117,14 +117,24 @@ fn insert_lines(p: &Project, a: &Analysis, i: usize, bad: &[String], rng: &mut R
             _ => None,
         })
         .collect();
+    // at an element boundary (never between a directive and its continuation lines)
+    let starts = crate::spec::element_starts(&data);
+    let pick_in = |rng: &mut Rng, lo: usize, hi: usize| -> usize {
+        let c: Vec<usize> = starts.iter().copied().filter(|i| *i >= lo && *i <= hi).collect();
+        if c.is_empty() {
+            hi.min(lines.len())
+        } else {
+            *rng.pick(&c)
+        }
+    };
     let at = match (placement, dep_lines.iter().min(), dep_lines.iter().max()) {
-        (Some(true), Some(first), _) => rng.range(1.min(*first), *first),
-        (Some(false), _, Some(last)) => rng.range(last + 1, lines.len()),
+        (Some(true), Some(first), _) => pick_in(rng, 1.min(*first), *first),
+        (Some(false), _, Some(last)) => pick_in(rng, last + 1, lines.len()),
         _ => {
             if lines.is_empty() {
                 0
             } else {
-                rng.range(1, lines.len())
+                pick_in(rng, 1, lines.len())
             }
         }
     };
@@ -601,8 +611,9 @@ pub fn run(case: &Case, ctx: &mut Ctx) -> CaseOutcome {
         required_fault = false;
         ctx.stats.count("fault.F9_not_applicable_to_empty_output");
     }
-    if fault == "F6-output-dev-full" && required_fault {
-        // an empty output never writes, so a full device is not a fault for it
+    if (fault == "F6-output-dev-full" || (fault == "F5a-output-is-directory" && last.cfg.mode == ModeS::Verify)) && required_fault {
+        // an empty output never writes, so a full device is not a fault for it; and verifying an
+        // empty output against a directory depends on the size the file system reports for it
         if let Some(i) = fi {
             let good: BTreeSet<usize> = [i].into_iter().collect();
             tree::plant(&ctx.env.ref_root, &project_with_writes(case));
@@ -619,7 +630,7 @@ pub fn run(case: &Case, ctx: &mut Ctx) -> CaseOutcome {
             let empty = r.files.get(&a.sources[i].out).map(|b| b.is_empty()).unwrap_or(false);
             if empty {
                 required_fault = false;
-                ctx.stats.count("fault.F6_not_applicable_to_empty_output");
+                ctx.stats.count("fault.F6_F5a_not_applicable_to_empty_output");
             }
         }
     }
